@@ -294,38 +294,49 @@ class Check(BaseCheck):
         range_vals = {}
         cell_vals = {}
 
+        # the containers a host hands over come in every nesting of lists and tuples (rows from a database cursor are tuples);
+        # whichever it is, the object and every row in it are the same objects, of the same types, afterwards
+        shape = [0]
+        SHAPES = [lambda: [[5, 6, 7], [8, 9, 10]], lambda: [(5, 6, 7), (8, 9, 10)], lambda: ([5, 6, 7], [8, 9, 10]), lambda: [[5, 6, 7], (8, 9, 10)],
+                  lambda: ((5, 6, 7), (8, 9, 10)), lambda: [(5,), (8,)], lambda: [(5, 6, 7)], lambda: [[5, (6,), 7], [8, 9, 10]]]
+
+        def rows_of(v):
+            return [id(r) for r in v] if isinstance(v, (list, tuple)) else []
+
         def on_range(a, b, s):
-            v = [[5, 6, 7], [8, 9, 10]]
-            range_vals[id(v)] = (v, canon(v))
+            v = SHAPES[shape[0] % len(SHAPES)]()
+            range_vals[id(v)] = (v, (canon(v), rows_of(v)))
             s(v)
 
         def on_cell(c, s):
-            v = [4, [5, 6]] if c.col.index % 2 else 3
-            cell_vals[id(v)] = (v, canon(v))
+            v = ([4, [5, 6]], [4, (5, 6)], (4, [5, 6]))[shape[0] % 3] if c.col.index % 2 else 3
+            cell_vals[id(v)] = (v, (canon(v), rows_of(v)))
             s(v)
         p.on('callRangeValue', on_range)
         p.on('callCellValue', on_cell)
         returned = []
 
         def giver(*a):
-            v = [3, 1, 2, [9, 8]]
+            v = ([3, 1, 2, [9, 8]], [3, 1, 2, (9, 8)], (3, 1, 2, [9, 8]))[shape[0] % 3]
             returned.append((v, canon(v)))
             return v
         p.set_function('GIVE', giver)
         shared = [3, 1, 2]
         lists = {'v_a': [3, 1, 2, 2.5, -1], 'v_b': [[3, 1], [2, 4]], 'v_c': shared, 'v_d': shared, 'v_e': ['b', 'a', 'c'], 'v_f': [1, [2, [3, [4]]]], 'v_g': [], 'v_h': [None, 0, '', False],
                  'v_i': [0.5], 'v_j': [2, 1, 3, 1, 2], 'v_k': ['x', 1, None, True, 2.5], 'v_s': 'text', 'v_n': 2, 'v_t': True,
-                 'v_m': ['b', None, 'a', None], 'v_o': [3, None, 1], 'v_p': [[2, None], [None, 1]], 'v_q': ['2', '1', 'x'], 'v_r': [True, False, None]}
+                 'v_m': ['b', None, 'a', None], 'v_o': [3, None, 1], 'v_p': [[2, None], [None, 1]], 'v_q': ['2', '1', 'x'], 'v_r': [True, False, None],
+                 'v_u': [(3, 1), (2, 4)], 'v_v': ([3, 1], [2, 4]), 'v_w': (3, 1, 2)}
         for n, v in lists.items():
             p.set_variable(n, v)
-        snap = {n: canon(v) for n, v in lists.items()}
+        snap = {n: (canon(v), rows_of(v)) for n, v in lists.items()}
         argsets = [('v_a',), ('v_b',), ('v_c', 'v_d'), ('v_e',), ('v_f',), ('v_a', 'v_n'), ('v_n', 'v_a'), ('v_a', 'v_a'), ('v_j', 'v_n'), ('v_k',), ('v_h',), ('A1:B2',), ('B2',),
                    ('GIVE()',), ('v_a', 'v_s'), ('v_s', 'v_e', 'v_s'), ('v_a', '">1"'), ('v_j', 'v_j', '">1"'), ('v_n', 'v_a', 'v_n'), ('v_b', 'v_n', 'v_n'), ('v_t', 'v_a', 'v_e'), ('v_g',),
                    ('v_a', 'v_j', '">=2"', 'v_j', '"<3"'), ('v_s', 'v_t', 'v_k', 'v_e'), ('v_i', 'v_a'), ('{1,2}', 'v_a'), ('v_a', 'GIVE()', 'A1:B2'),
                    # lists holding blanks / text / logicals, and both settings of flag arguments
                    ('v_m',), ('v_o',), ('v_p',), ('v_q',), ('v_r',), ('v_s', 'FALSE', 'v_m'), ('v_s', 'TRUE', 'v_m'), ('v_s', 'FALSE', 'v_h'), ('v_s', 'FALSE', 'v_o', 'v_m'),
                    ('v_m', 'v_n'), ('v_n', 'v_m'), ('v_o', 'v_n'), ('v_o', 'v_o'), ('v_m', 'v_s', 'v_s'), ('v_q', '"1"'), ('v_r', 'v_r'), ('v_o', '">0"'), ('v_p', 'v_n', 'v_n'),
-                   ('v_s', 'v_n', 'v_m'), ('FALSE', 'v_m'), ('TRUE', 'v_o'), ('v_m', 'FALSE'), ('v_o', 'TRUE')]
+                   ('v_s', 'v_n', 'v_m'), ('FALSE', 'v_m'), ('TRUE', 'v_o'), ('v_m', 'FALSE'), ('v_o', 'TRUE'),
+                   ('v_u',), ('v_v',), ('v_w',), ('v_u', 'v_n', 'v_n'), ('v_n', 'v_u'), ('v_v', 'v_n'), ('v_n', 'v_w', 'v_n'), ('A1:B2', 'v_n', 'v_n'), ('v_n', 'A1:B2'), ('v_n', 'A1:B2', 'v_n')]
         forms = []
         for fn in names:
             for args in argsets:
@@ -340,19 +351,20 @@ class Check(BaseCheck):
             del returned[:]
             range_vals.clear()
             cell_vals.clear()
+            shape[0] = rnd.randrange(24)
             r = p.parse(f)
             rec.case()
             rec.nt(f)
-            bad = [n for n, v in lists.items() if canon(v) != snap[n]]
+            bad = [n for n, v in lists.items() if (canon(v), rows_of(v)) != snap[n]]
             if bad:
                 rec.violation('C02/host-variable-value-mutated:' + f.split('(')[0][:20], formula=f, variables=bad, now={n: lists[n] for n in bad}, before={n: snap[n] for n in bad})
                 for n in bad:     # restore so that one mutation is reported once
-                    snap[n] = canon(lists[n])
+                    snap[n] = (canon(lists[n]), rows_of(lists[n]))
             for name, a, before in delivered:
                 if canon(a) != before:
                     rec.violation('C02/callFunction-args-mutated-after-delivery:' + name, formula=f, args=a, before=before)
             for v, before in list(range_vals.values()) + list(cell_vals.values()):
-                if canon(v) != before:
+                if (canon(v), rows_of(v)) != before:
                     rec.violation('C02/setter-value-mutated:' + f.split('(')[0][:20], formula=f, now=v, before=before)
             for v, before in returned:
                 if canon(v) != before:
